@@ -450,15 +450,47 @@ func (m *engineImpl) Do(line string) string {
 		_ = hdr
 		_ = trl
 		return "ok " + d
-	case "apply": // apply <ltxspec>: min max pre post|auto commit ps pgno:data,...  (replica path)
-		if len(f) < 2 || !m.need() {
+	case "sapply", "txapply": // <ltxspec>: min max pre post commit ps [pgno=data ...]
+		// sapply: the replication-stream path (Store.processLTXStreamFrame, creates the database if needed)
+		// txapply: the forwarding endpoint's path (WriteLTXFileAt + ApplyLTXNoLock, as handlePostTx)
+		if len(f) < 2 || m.store == nil || m.exit != 0 {
 			return "bad-op"
 		}
 		b, ok := buildLTX(f[1:], m.store.Compress)
 		if !ok {
 			return "bad-op"
 		}
-		return m.withExit(m.applyLTX(b))
+		if f[0] == "sapply" {
+			tctx, cancel := context.WithTimeout(ctx, 150*time.Millisecond)
+			defer cancel()
+			err := m.store.VerifProcessLTXStreamFrame(tctx, &litefs.LTXStreamFrame{Name: "db"}, bytes.NewReader(b))
+			if m.db == nil {
+				if m.db = m.store.DB("db"); m.db != nil {
+					m.db.Now = func() time.Time { return fixedNow }
+				}
+			}
+			switch {
+			case err == nil:
+				return m.withExit("ok")
+			case errors.Is(err, context.DeadlineExceeded):
+				return "busy"
+			case strings.Contains(err.Error(), "apply ltx"):
+				return m.withExit("apply-failed")
+			default:
+				return m.withExit("rejected")
+			}
+		}
+		if m.db == nil {
+			return "notfound"
+		}
+		path, err := m.db.WriteLTXFileAt(ctx, bytes.NewReader(b))
+		if err != nil {
+			return m.withExit("rejected")
+		}
+		if err := m.db.ApplyLTXNoLock(path, true); err != nil {
+			return m.withExit("apply-failed")
+		}
+		return m.withExit("ok")
 	case "import": // import <data>
 		if len(f) != 2 || m.store == nil {
 			return "bad-op"
@@ -538,26 +570,6 @@ func (m *engineImpl) withExit(s string) string {
 		return fmt.Sprintf("%s exit=%d", s, m.exit)
 	}
 	return s
-}
-
-// applyLTX mirrors Store.processLTXStreamFrame's use of the DB: acquire the write lock,
-// write the file into the log, apply it.
-func (m *engineImpl) applyLTX(b []byte) string {
-	ctx, cancel := context.WithTimeout(context.Background(), 150*time.Millisecond)
-	defer cancel()
-	guard, err := m.db.AcquireWriteLock(ctx, nil)
-	if err != nil {
-		return "busy"
-	}
-	defer guard.Unlock()
-	path, err := m.db.WriteLTXFileAt(ctx, bytes.NewReader(b))
-	if err != nil {
-		return "rejected"
-	}
-	if err := m.db.ApplyLTXNoLock(path, true); err != nil {
-		return "apply-failed"
-	}
-	return "ok"
 }
 
 func pageSizeOf(img []byte) int {
